@@ -40,3 +40,7 @@ def run(ctx):
     from .. import spaces as _spaces
 
     _spaces.localised_inherit(ctx)  # singular parts, sparse forms, potentials and FMM point maps are computed on the localised companion space
+    from . import c10 as _c10b
+
+    _c10b.compat(ctx)  # the singular part (and the FMM near field built on it) converts the spaces first and reads the converted ones only
+    _c10b.compat_use(ctx)
